@@ -137,6 +137,12 @@ def extract():
     if tail is None:
         raise core.CheckBroken("ex_c08_regex: Pattern::expand no longer builds `results`")
     sorts_results = re.search(r"\bresults\s*\.\s*sort(_unstable)?\(\)\s*;", tail) is not None
+    # PEG shapes that the proposed fixes introduce (recognised positively; anything else is left to the correspondence)
+    norm = re.sub(r"\s+", " ", pt)
+    leading_rb = ('first:(leading_right_bracket()?) members:bracket_member()* "]"' in norm and
+                  'rule leading_right_bracket() -> Option<String> = "]" "-" to:single_char_bracket_member()' in norm and
+                  'Some(std::format!(r"\\]-{to_str}"))' in norm and '"]" { Some(String::from(r"\\]")) }' in norm)
+    esc_plain = ("['\\\\'] [c] { if c.is_ascii_alphanumeric() { (c.to_string(), c) } else { (std::format!(\"\\\\{c}\"), c) } }" in norm)
     out = []
     out.append("(** GENERATED by translator/ex_c08_regex.py from brush-core/src/regex.rs, brush-core/src/patterns.rs and")
     out.append("    brush-parser/src/pattern.rs - do not edit. *)")
@@ -160,6 +166,9 @@ def extract():
     out.append("(* patterns.rs Pattern::expand: matching_paths_in_dir.sort() per directory; results.sort() on the final list *)")
     out.append("Definition expand_sorts_per_dir : bool := %s." % ("true" if sorts_per_dir else "false"))
     out.append("Definition expand_sorts_results : bool := %s." % ("true" if sorts_results else "false"))
+    out.append("(* pattern.rs: a leading ']' is a bracket member (rule leading_right_bracket); an escaped letter/digit in a bracket is emitted plain *)")
+    out.append("Definition peg_leading_rbracket : bool := %s." % ("true" if leading_rb else "false"))
+    out.append("Definition peg_escaped_alnum_plain : bool := %s." % ("true" if esc_plain else "false"))
     out.append("(* pattern.rs rule char_class, in order *)")
     out.append("Definition class_names : list str := [%s]." % "; ".join(strlit(n) for n in names))
     out.append("(* pattern.rs rule extended_glob_prefix, in order *)")
